@@ -33,7 +33,18 @@ def run(ctx):
         # monitors only — the candidates it screens are stored individuals of the parent
         runs.monitor_batch(ctx, PID, ctx.size(30, 300), salt=37, name="traced-runs-monitor-C02(MahalanobisFarEnough over CMA-ES children)", force=_mahalanobis),
         slice_cobyla(ctx, ctx.rng(39), ctx.size(24, 200)),
+        # FunctionProblem(use_cache=True), one problem (and objective) per level: a value cached for one
+        # level's objective must never be served for another's (monitors only: with a cache the objective is
+        # invoked less often than the counters say, by design)
+        runs.monitor_batch(ctx, PID, ctx.size(30, 300), salt=41, name="traced-runs-monitor-C02(cached problems, one objective per level)", force=_cached),
     ]
+
+
+def _cached(rng):
+    nlev = int(rng.choice([2, 2, 3]))
+    pop = ["sea", "de", "shade", "ga", "seax"]
+    return {"nlev": nlev, "engines": {0: pop, 1: pop + ["cma"], 2: pop + ["local"]}, "use_cache": True, "shared_problem": False, "level_shift": True,
+            "cutoff": None, "stats_wrapper": False, "precision_wrapper": None, "gsc": {"kind": "MetaepochLimit", "limit": int(rng.integers(3, 7))}}
 
 
 def _cobyla_spec(rng):
